@@ -17,7 +17,7 @@ pub enum Case {
     /// one step from exact data, interpolant probed on a theta grid, h refined five times
     Slope { prob: ProbSpec, x0: f64, back: bool, method: Meth },
     /// a full run: dense solution at generated interior points vs the neighbouring step ends
-    Full { prob: ProbSpec, span: Span, method: Meth, rtol: f64, atol_rel: f64, rk4_steps: f64, thetas: Vec<f64>, analytic_jac: bool },
+    Full { prob: ProbSpec, span: Span, method: Meth, rtol: f64, atol_rel: f64, rk4_steps: f64, thetas: Vec<f64>, analytic_jac: bool, #[serde(default)] terminal_at: Option<f64> },
 }
 
 fn interp_order(m: Meth) -> usize {
@@ -94,11 +94,15 @@ fn check_slope(spec: &ProbSpec, x0: f64, back: bool, m: Meth) -> Outcome {
     Outcome::pass(format!("{}:slope", m.name()), true, json!({"slope": slope, format!("slope_deficit_{}", m.name()): (q as f64 + 1.0) - slope}))
 }
 
-fn check_full(spec: &ProbSpec, sp: &Span, m: Meth, rtol: f64, atol_rel: f64, rk4_steps: f64, thetas: &[f64], analytic_jac: bool) -> Outcome {
+fn check_full(spec: &ProbSpec, sp: &Span, m: Meth, rtol: f64, atol_rel: f64, rk4_steps: f64, thetas: &[f64], analytic_jac: bool, terminal_at: Option<f64>) -> Outcome {
     let d = sp.dir();
     let prob = Prob::new(spec, sp.x0, sp.xend);
     let n = prob.n;
-    let evs = vec![EvSpec { g: Ev::Const { v: 1.0 }, dir: 0, terminal: None }];
+    let mut evs = vec![EvSpec { g: Ev::Const { v: 1.0 }, dir: 0, terminal: None }];
+    if let Some(f) = terminal_at {
+        // a terminal event inside a step: the dense output must also be right on the last, partial step
+        evs.push(EvSpec { g: Ev::Time { c: sp.x0 + f * (sp.xend - sp.x0) }, dir: 0, terminal: Some(1) });
+    }
     let mut instr = Instr::new(&prob, &evs);
     instr.dir = d;
     instr.use_jac = analytic_jac;
@@ -109,7 +113,8 @@ fn check_full(spec: &ProbSpec, sp: &Span, m: Meth, rtol: f64, atol_rel: f64, rk4
         RunResult::Ok(s) => s,
         other => return Outcome::triv(format!("run:{}", other.describe().chars().take(30).collect::<String>())),
     };
-    if sol.status != Status::Success {
+    let stopped = terminal_at.is_some() && sol.status == Status::UserInterrupt;
+    if sol.status != Status::Success && !stopped {
         return Outcome::triv(format!("status:{}", status_name(sol.status)));
     }
     let log = instr.take_log();
@@ -117,8 +122,22 @@ fn check_full(spec: &ProbSpec, sp: &Span, m: Meth, rtol: f64, atol_rel: f64, rk4
     if idx.len() < 3 {
         return Outcome::triv("fewer-than-2-steps");
     }
-    let grid: Vec<f64> = idx.iter().map(|&k| log.ev_t[k]).collect();
-    let eend: Vec<f64> = idx.iter().map(|&k| max_abs_diff(&log.ev_y[k], &prob.exact(log.ev_t[k]))).collect();
+    let mut grid: Vec<f64> = idx.iter().map(|&k| log.ev_t[k]).collect();
+    let mut eend: Vec<f64> = idx.iter().map(|&k| max_abs_diff(&log.ev_y[k], &prob.exact(log.ev_t[k]))).collect();
+    if stopped {
+        // the covered span ends at the event: the last "step" is the part of the final step up to the event point
+        let te = *sol.t.last().unwrap();
+        let ee = max_abs_diff(sol.y.last().unwrap(), &prob.exact(te));
+        while grid.len() > 1 && (*grid.last().unwrap() - te) * d >= 0.0 {
+            grid.pop();
+            eend.pop();
+        }
+        grid.push(te);
+        eend.push(ee);
+        if grid.len() < 3 {
+            return Outcome::triv("fewer-than-2-steps");
+        }
+    }
     let ymax = idx.iter().fold(0.0f64, |mm, &k| mm.max(inf_norm(&log.ev_y[k])));
     let mut tolscale = atol + rtol * ymax;
     if m == Meth::RADAU {
@@ -128,6 +147,7 @@ fn check_full(spec: &ProbSpec, sp: &Span, m: Meth, rtol: f64, atol_rel: f64, rk4
     let kappa = prob.kappa();
     let rate = prob.rate_t();
     let mut worst: f64 = 0.0;
+    let mut worst_bdf: f64 = 0.0;
     let mut skipped = 0usize;
     let mut probed = 0usize;
     let mut batch: Vec<(f64, f64)> = vec![]; // (time, allowed error) of every probe
@@ -144,7 +164,19 @@ fn check_full(spec: &ProbSpec, sp: &Span, m: Meth, rtol: f64, atol_rel: f64, rk4
         // in that sense: e.g. Radau's cubic interpolant has error ~ tol^(2/3) inside a step)
         let interp_allow = if m == Meth::RK4 { ymax * (rate * h.abs()).powi(4) } else { crate::props::c01::C_BOUND * kappa * (sol.naccpt as f64) * tolscale };
         let floor = 64.0 * f64::EPSILON * (1.0 + ymax) * (grid.len() as f64).sqrt() + 8.0 * ulp(sp.x0.abs().max(sp.xend.abs())) * rate * ymax;
-        let allow = 10.0 * eend[i].max(eend[i + 1]) + interp_allow + floor;
+        let mut bdf_nb = 0.0;
+        let mut allow = 10.0 * eend[i].max(eend[i + 1]) + interp_allow + floor;
+        if m == Meth::BDF {
+            // "for BDF it matches the accuracy of the step itself": the interpolant is the method's own polynomial, so
+            // inside a step it is as accurate as the neighbouring step ends and the local tolerance, not merely as the
+            // accumulated bound
+            let lo = i.saturating_sub(1);
+            let hi = (i + 2).min(eend.len() - 1);
+            let nb = eend[lo..=hi].iter().cloned().fold(0.0, f64::max);
+            // (largest interior error / (neighbouring step-end errors + tolerance scale) seen over 2.5e4 BDF runs: 0.995)
+            allow = 3.0 * (nb + tolscale) + floor;
+            bdf_nb = nb + tolscale + floor;
+        }
         for th in thetas {
             let t = grid[i] + th * h;
             let v = match sol.sol(t) {
@@ -154,6 +186,9 @@ fn check_full(spec: &ProbSpec, sp: &Span, m: Meth, rtol: f64, atol_rel: f64, rk4
             let e = max_abs_diff(&v, &prob.exact(t));
             batch.push((t, allow));
             worst = worst.max(e / allow);
+            if bdf_nb > 0.0 {
+                worst_bdf = worst_bdf.max(e / bdf_nb);
+            }
             if e > allow {
                 return Outcome::viol(format!(
                     "{}: dense output at t={:e} (theta={:.3} of step {} of {}, h={:e}) is off by {:e} while the step ends are accurate to {:e} / {:e} (allowed {:e}; rtol={:e})",
@@ -189,13 +224,13 @@ fn check_full(spec: &ProbSpec, sp: &Span, m: Meth, rtol: f64, atol_rel: f64, rk4
     if probed == 0 {
         return Outcome::triv("all-steps-outside-asymptotic-range");
     }
-    Outcome::pass(format!("{}:full", m.name()), probed >= 3, json!({"steps": grid.len() - 1, "steps_probed": probed, "steps_skipped_h_rate_gt_1": skipped, "interior_err_over_allowed": worst}))
+    Outcome::pass(format!("{}:full", m.name()), probed >= 3, json!({"steps": grid.len() - 1, "steps_probed": probed, "steps_skipped_h_rate_gt_1": skipped, "interior_err_over_allowed": worst, "bdf_interior_over_neighbours_plus_tol": worst_bdf}))
 }
 
 pub fn check(c: &Case) -> Outcome {
     match c {
         Case::Slope { prob, x0, back, method } => check_slope(prob, *x0, *back, *method),
-        Case::Full { prob, span, method, rtol, atol_rel, rk4_steps, thetas, analytic_jac } => check_full(prob, span, *method, *rtol, *atol_rel, *rk4_steps, thetas, *analytic_jac),
+        Case::Full { prob, span, method, rtol, atol_rel, rk4_steps, thetas, analytic_jac, terminal_at } => check_full(prob, span, *method, *rtol, *atol_rel, *rk4_steps, thetas, *analytic_jac, *terminal_at),
     }
 }
 
@@ -206,8 +241,8 @@ pub fn strategy() -> BoxedStrategy<Case> {
             if prob.blocks.len() > 2 { prob.blocks.truncate(2); }
             Case::Slope { prob, x0, back, method }
         }),
-        2 => (prob_spec(5, 0.5, 8.0), span_mid(), any_method(), log10(-9.0, -3.0), log10(-3.0, 0.0), fr(20.3, 200.9), proptest::collection::vec(fr(0.02, 0.98), 1..5), any::<bool>())
-            .prop_map(|(prob, span, method, rtol, atol_rel, rk4_steps, thetas, analytic_jac)| Case::Full { prob, span, method, rtol, atol_rel, rk4_steps, thetas, analytic_jac }),
+        2 => (prob_spec(5, 0.5, 8.0), span_mid(), any_method(), log10(-9.0, -3.0), log10(-3.0, 0.0), fr(20.3, 200.9), proptest::collection::vec(fr(0.02, 0.98), 1..5), any::<bool>(), proptest::option::weighted(0.2, fr(0.2, 0.95)))
+            .prop_map(|(prob, span, method, rtol, atol_rel, rk4_steps, thetas, analytic_jac, terminal_at)| Case::Full { prob, span, method, rtol, atol_rel, rk4_steps, thetas, analytic_jac, terminal_at }),
     ]
     .boxed()
 }
